@@ -6,6 +6,7 @@ import (
 	"hash/maphash"
 	"io"
 	"math"
+	"math/big"
 	"reflect"
 	"slices"
 	"strings"
@@ -427,7 +428,19 @@ func (s unicodeString) Equals(other Value) bool {
 		return true
 	}
 
-	if o, ok := other.(*Object); ok {
+	// IsLooselyEqual: a String is compared with a Number (or a Boolean) through ToNumber, with a BigInt through StringToBigInt
+	switch o := other.(type) {
+	case valueInt, valueFloat:
+		return s.ToNumber().Equals(o)
+	case valueBool:
+		return s.ToNumber().Equals(o.ToNumber())
+	case *valueBigInt:
+		bigInt, err := stringToBigInt(s.toTrimmedUTF8())
+		if err != nil {
+			return false
+		}
+		return bigInt.Cmp((*big.Int)(o)) == 0
+	case *Object:
 		return s.Equals(o.toPrimitive())
 	}
 	return false
